@@ -46,6 +46,7 @@ def main (args : List String) : IO UInt32 := do
   | ["runseq"] => loopStateless stdin stdout Driver.Runnable.stepRunSeq; stdout.flush; return 0
   | ["notify"] => loopStateless stdin stdout Driver.Runnable.stepNotify; stdout.flush; return 0
   | ["proto"] => loopState stdin stdout Driver.Runnable.pInit Driver.Runnable.stepProto; stdout.flush; return 0
+  | ["threads"] => loopState stdin stdout Driver.RunnableTh.tInit Driver.RunnableTh.stepThreads; stdout.flush; return 0
   | ["monitor"] => loopStateless stdin stdout Driver.Monitor.step; stdout.flush; return 0
   | ["sched"] => loopState stdin stdout ({} : Driver.Sched.DSt) Driver.Sched.step; stdout.flush; return 0
   | ["hcache"] => loopState stdin stdout Driver.HCache.St.init Driver.HCache.step; stdout.flush; return 0
